@@ -12,12 +12,22 @@ type Hit struct {
 	Args  []*Term // receiver first for invoke
 	Env   *Env
 	Chain []string
+	// Levels: the functions on the way from the entry point (first) to Fn (last), each with its environment
+	// and the call instruction that leads one level down (the matched call itself at the last level)
+	Levels []ReachLevel
+}
+
+type ReachLevel struct {
+	Fn   *ssa.Function
+	Env  *Env
+	Site ssa.CallInstruction
 }
 
 // Reach walks the module call tree from entry, binding parameters, and reports matching call sites.
 func (tb *TB) Reach(entry *ssa.Function, match func(ssa.CallInstruction) bool, maxDepth int) []Hit {
 	var hits []Hit
 	visited := map[string]bool{}
+	var levels []ReachLevel
 	var walk func(fn *ssa.Function, e *Env, chain []string, depth int)
 	walk = func(fn *ssa.Function, e *Env, chain []string, depth int) {
 		if fn == nil || fn.Blocks == nil || depth > maxDepth {
@@ -42,9 +52,12 @@ func (tb *TB) Reach(entry *ssa.Function, match func(ssa.CallInstruction) bool, m
 			for _, a := range cc.Args {
 				args = append(args, tb.Val(a, e))
 			}
+			levels = append(levels, ReachLevel{fn, e, ci})
+			defer0 := len(levels) - 1
 			if match(ci) {
-				hits = append(hits, Hit{Call: ci, Fn: fn, Args: args, Env: e, Chain: chain})
+				hits = append(hits, Hit{Call: ci, Fn: fn, Args: args, Env: e, Chain: chain, Levels: append([]ReachLevel(nil), levels...)})
 			}
+			defer func() { levels = levels[:defer0] }()
 			if _, isB := cc.Value.(*ssa.Builtin); isB {
 				return
 			}
